@@ -21,7 +21,7 @@ RULE = ('cases are 3-8 armored objects of drawn kinds / payload lengths / bodies
         'kinds were decoded by the independent decoder and at least one corrupted delivery was judged; distinct = distinct '
         '(kind, payload length mod 48, delivery forms, fault places) tuples')
 TIERS = {"quick": {"runs": 8000, "budget_s": 80}, "thorough": {"runs": 300000, "budget_s": 1500}}
-PROBES = ('lone_public_subkey_armored', 'binary_ends_in_whitespace_octet', 'kind_pubkey', 'kind_privkey', 'kind_message', 'kind_signature', 'kind_cleartext', 'crc_leading_zero_octet', 'payload_mod3_0',
+PROBES = ('surrounding_text_quotes_armor_header', 'lone_public_subkey_armored', 'binary_ends_in_whitespace_octet', 'kind_pubkey', 'kind_privkey', 'kind_message', 'kind_signature', 'kind_cleartext', 'crc_leading_zero_octet', 'payload_mod3_0',
           'payload_mod3_1', 'payload_mod3_2', 'delivered_crlf', 'delivered_bytes', 'delivered_bytearray', 'delivered_file', 'delivered_surrounded',
           'extra_headers', 'f6_raised', 'f6_crc_warning', 'f6_same_payload', 'wrong_kind_rejected', 'body_zeros', 'body_ff')
 KINDS = ['message', 'message', 'message', 'pubkey', 'privkey', 'signature', 'cleartext']
@@ -231,7 +231,12 @@ def execute(case, ctx):
                 t, ff = p, True
                 ctx.probe('delivered_file')
             elif form == 'surrounded':
-                t = 'Dear reader,\nsome mail text: with a colon\n\n' + text + '\n-- \nsignature block\n'
+                pre = 'Dear reader,\nsome mail text: with a colon\n\n'
+                if st['seed'] % 2:
+                    # the text in front quotes an armor header line (a reply quoting an older block, a sentence about the format)
+                    pre = 'You wrote:\n> -----BEGIN PGP MESSAGE-----\n> (snipped)\nand the line "-----BEGIN PGP " starts every block.\n\n'
+                    ctx.probe('surrounding_text_quotes_armor_header')
+                t = pre + text + '\n-- \nsignature block\n'
                 ctx.probe('delivered_surrounded')
             ctx.perturb(form)
             forms_used.append(form)
